@@ -346,6 +346,9 @@ def encode(spec):
 # ---------------------------------------------------------------------------
 def full_date(yyjjj_, century_hint=None):
     """YYJJJ -> YYYYJJJ with the 1970-2069 window"""
+    if not 0 <= yyjjj_ <= 99999 or not 1 <= yyjjj_ % 1000 <= 366:
+        # the field is a two-digit year and a day of the year
+        raise ValueError('date field %d is not YYJJJ' % yyjjj_)
     yy = yyjjj_ // 1000
     return (2000000 if yy < 70 else 1900000) + yyjjj_
 
